@@ -177,6 +177,14 @@ fn extract(e: &Envelope, ty: &str) -> String {
     }
 }
 
+/// the signing key with a given id: the scheme depends on the id (1 mod 3: Schnorr, 2: ECDSA, 0: Ed25519)
+pub fn sig_key(kid: u64) -> (bc_components::SigningPrivateKey, bc_components::SigningPublicKey) {
+    let base = bc_components::PrivateKeyBase::from_data(&[kid as u8; 32]);
+    let sk = match kid % 3 { 1 => base.schnorr_signing_private_key(), 2 => base.ecdsa_signing_private_key(), _ => base.ed25519_signing_private_key() };
+    let pk = sk.public_key().unwrap();
+    (sk, pk)
+}
+
 #[derive(Default)]
 pub struct Machine {
     pub regs: HashMap<String, Val>,
@@ -278,6 +286,18 @@ impl Machine {
                 let c = bc_components::Compressed::from_uncompressed_data(self.env(other)?.tagged_cbor().to_cbor_data(), Some(self.env(e)?.digest().into_owned()));
                 res(Envelope::try_from(c))
             }
+            ["add_sig", e, sig] => {
+                let sg = self.env(sig)?.extract_subject::<bc_components::Signature>().ok()?;
+                Val::Env(self.env(e)?.add_assertion(known_values::SIGNED, sg))
+            }
+            ["add_sig_meta", e, sig, outer, metas] => {
+                // the structure add_signature_opt builds, from the given signatures
+                let mut m = self.env(sig)?;
+                for a in self.envs(metas)? { m = m.add_assertion_envelope(a).ok()?; }
+                let wrapped = m.wrap_envelope();
+                let signature = wrapped.add_assertion(known_values::SIGNED, self.env(outer)?);
+                Val::Env(self.env(e)?.add_assertion(known_values::SIGNED, signature))
+            }
             ["decode", hx] => res(Envelope::from_tagged_cbor_data(hex::decode(hx).ok()?)),
             ["recode", e] => res(Envelope::from_tagged_cbor_data(self.env(e)?.tagged_cbor().to_cbor_data())),
             ["proof", e, ts] => {
@@ -330,6 +350,16 @@ impl Machine {
                 let t = self.digest_set(ts)?;
                 self.env(e)?.confirm_contains_set(&t, &self.env(p)?).to_string()
             }
+            ["has_sig", e, kid] => {
+                let (_, pk) = sig_key(kid.parse().ok()?);
+                match self.env(e)?.has_signature_from_returning_metadata(&pk) { Ok(Some(m)) => format!("some {}", dshort(&m.digest())), Ok(None) => "none".into(), Err(x) => format!("err {}", err_kind(&x)) }
+            }
+            ["has_sigs", e, kids, thr] => {
+                let pks: Vec<bc_components::SigningPublicKey> = if *kids == "-" { vec![] } else { kids.split(',').map(|k| k.parse::<u64>().ok().map(|k| sig_key(k).1)).collect::<Option<Vec<_>>>()? };
+                let refs: Vec<&dyn bc_envelope::Verifier> = pks.iter().map(|p| p as &dyn bc_envelope::Verifier).collect();
+                let t = if *thr == "-" { None } else { Some(thr.parse::<usize>().ok()?) };
+                match self.env(e)?.has_signatures_from_threshold(&refs, t) { Ok(b) => b.to_string(), Err(x) => format!("err {}", err_kind(&x)) }
+            }
             ["flags", e] => {
                 let e = self.env(e)?;
                 format!("node={} sa={} so={} obsc={} internal={} nas={}", e.is_node(), e.is_subject_assertion(),
@@ -347,6 +377,7 @@ impl Machine {
             self.regs.clear();
             return Some(format!("scenario {}", toks[1]));
         }
+        if toks[0] == "fact" { return Some("ok".into()); }
         if toks[0] == "obs" {
             return Some(match guarded(|| self.eval_obs(&toks[1..])) {
                 Ok(Some(s)) => s,
